@@ -62,6 +62,8 @@ def gen_case(tape, tier):
         "two_failures": bool(tape.coin(0.5 if tier == "thorough" else 0.3, "two")),
         "shared_exc": bool(tape.coin(0.3, "shared-exc")),
         "max_plans": 40 if tier == "quick" else 120,
+        # the program that uses pipefunc is itself a multiprocessing child (parent_process() is not None)
+        "as_mp_child": bool(tape.coin(0.12, "as-mp-child")),
     }
     if kind in ("call", "run") and tape.coin(0.25, "uncopyable-arg"):
         roots = sorted(root_kwargs(w, output))
@@ -156,6 +158,10 @@ def run_plan(w, cfg, faults, ref, tape, gens, then=None):
     with C.Scratch() as root, warnings.catch_warnings():
         warnings.simplefilter("ignore")
         sim = C.new_sim(tape, root, preempt=cfg["preempt"])
+        sim.as_mp_child = bool(cfg.get("as_mp_child"))
+        import threading as _threading
+
+        threads_before = set(_threading.enumerate())
         fobjs = [Fault(f["fn"], f.get("args_obj"), f["exc"]) if f.get("args_obj") is not None
                  else Fault(f["fn"], None, f["exc"], nth=f.get("nth", 0)) for f in faults]
         sim.faults = FaultPlan(fobjs, shared_instances=bool(cfg.get("shared_exc")))
@@ -348,6 +354,14 @@ def run_plan(w, cfg, faults, ref, tape, gens, then=None):
         finally:
             C.restore_default_pool(sim)
             simmanager.shutdown_all(sim)
+        stray = C.stray_threads(threads_before)
+        if stray and not viol:
+            # a (worker) process with a live non-daemon thread never exits: the pool that waits for it hangs
+            V("liveness", "non-daemon-thread-left-running", {"threads": stray, "fired": info["fired"]})
+        if any(fd.get("profile") for fd in w["functions"]):
+            info["probes"]["profiled_function"] = 1
+        if cfg.get("as_mp_child"):
+            info["probes"]["as_mp_child"] = 1
         info["yields"] = sim.kernel.steps
         info["digest"] = sim.kernel.digest()
         for k3, v3 in sim.probes.items():
